@@ -5,7 +5,7 @@ PROP = dict(
     technique="Go race detector as oracle over concurrent drivers whose activity alphabet and schedules come from the TLA+ specs (TraceCollector.tla validated traces, Cluster.tla / Reload.tla / Metrics.tla / PubSub.tla action alphabets); each distinct racing pair of functions is a finding",
     design_ref="DESIGN.md section 5 C35",
     level_text="A TLA+ model cannot see memory-level races; what it contributes here is the schedule shapes: the real collector (3 workers, concurrent producers, clock, rules reloads, ejections - the same runs TLC validates against TraceCollector.tla), one real node (routers on both listeners, stress toggling, collector ticks, dispatch of both transmissions, config reloads that clear samplers and resize decision caches), concurrent config reloads, concurrent metric registration/updates, and a real ConfigWatcher on a real LocalPubSub (Stop racing the monitor goroutine Start has just spawned, peer notices, reload callbacks - the schedules PubSub.tla's watcher model flags) are executed under -race. Every race report whose stacks are in refinery code is a violation, identified by the pair of innermost refinery functions.",
-    level_note="The oracle is the Go race detector, not TLC; it decides nothing about interleavings the drivers do not produce. Peer membership (RedisPubsubPeers) and shutdown are not driven concurrently here. Distinct = number of independent concurrent runs; evaluations = events processed.",
+    level_note="The oracle is the Go race detector, not TLC; it decides nothing about interleavings the drivers do not produce. Peer membership is driven on one node (messages over a LocalPubSub, expiring entries, concurrent GetPeers readers and callbacks); shutdown is not driven concurrently here (C36 overlaps Stop with a tick). Distinct = number of independent concurrent runs; evaluations = events processed.",
     assumptions=["the race detector reports only real races"],
     stages=[dict(kind="trace", name="collector", module="TraceCollector", cfg="TraceCollector.cfg", pkg="collect", test="TestVerifCollectorTrace",
                  harness=["collect/collector_test.go", "collect/collector_trace_test.go"], race=True, race_oracle=True, budget={"quick": 12, "thorough": 120}),
@@ -17,6 +17,8 @@ PROP = dict(
                  race=True, race_oracle=True, race_only=True, budget={"quick": 8, "thorough": 60}),
             dict(kind="gotest", name="metrics", pkg="metrics", test="TestVerifC33Concurrent", harness=["metrics/c33_concurrent_test.go"],
                  race=True, race_oracle=True, race_only=True, budget={"quick": 5, "thorough": 30}),
+            dict(kind="gotest", name="peers", pkg="internal/peer", test="TestVerifC35PeersRace", harness=["internal/peer/c35_peers_race_test.go"],
+                 race=True, race_oracle=True, race_only=True, budget={"quick": 10, "thorough": 60}),
             dict(kind="gotest", name="watcher", pkg="internal/configwatcher", test="TestVerifC35WatcherRace", harness=["internal/configwatcher/c35_watcher_race_test.go"],
                  race=True, race_oracle=True, race_only=True, budget={"quick": 5, "thorough": 30})],
 )
